@@ -3049,6 +3049,21 @@ impl Zeroconf {
                 continue;
             }
 
+            // Our own announcements and answers are looped back to us. A record we
+            // already hold as active under this name - from a service sharing the
+            // host name, from another address of this interface, or from the earlier
+            // registration that is being updated - is not somebody else's claim.
+            let is_ours = dns_registry.active.get(name).is_some_and(|records| {
+                records.iter().any(|record| {
+                    record.get_type() == answer.get_type()
+                        && record.get_class() == answer.get_class()
+                        && record.rrdata_match(answer.as_ref())
+                })
+            });
+            if is_ours {
+                continue;
+            }
+
             debug!(
                 "found conflict name: '{name}' {}: PEER: {}",
                 answer.get_type(),
